@@ -8,7 +8,7 @@
    frame without outcome, ACKED only if it was delivered; pop / sync of the event queue).
    [n_dbytes] / [n_ends]: concatenation of the bytes / number of end markers reported to the application. *)
 From AQ Require Import lib.Base model.RangeSet model.StreamRecv model.StreamSpec model.StreamSend model.NetSys
-  proofs.StreamSendP proofs.NetSysP proofs.NetSysP2 proofs.NetSysP3 proofs.NetSysP4 proofs.NetSysP5 proofs.NetSysP6.
+  proofs.StreamSendP proofs.NetSysP proofs.NetSysP2 proofs.NetSysP3 proofs.NetSysP4 proofs.NetSysP5 proofs.NetSysP6 proofs.NetSysP7.
 
 (* the bytes reported are a prefix of the bytes written, in every reachable state; the end marker is
    reported at most once and only when a FIN was written and all written bytes have been reported *)
@@ -58,7 +58,8 @@ Print Assumptions finished_implies_delivered_thm.
    and ends with every written byte reported in order, exactly one end marker iff a FIN was written,
    the sender is_finished iff a FIN was written, no frame left without outcome.  Its length is bounded
    by |emitted| + 3 * rounds, where rounds = sum over the ranges pending after the losses of
-   ceil(len / ms), + 1 for a pending FIN, and rounds <= unacknowledged span + 1.
+   ceil(len / ms), + 1 for a pending FIN; rounds <= unacknowledged span + 1 and
+   rounds <= number of pending ranges + pending bytes / ms + 1.
    (Executed by vm_compute on a mid-way state: NetSysP4.complete_example.) *)
 Theorem fair_schedule_completes_thm : forall s ms, nreach s -> 0 < ms ->
   exists s', run_sched s (complete ms s) = Some s' /\ Forall data_op (complete ms s) /\
@@ -67,7 +68,9 @@ Theorem fair_schedule_completes_thm : forall s ms, nreach s -> 0 < ms ->
     (~ eof s -> n_ends s' = 0 /\ s_finished (n_send s') = false) /\
     quiet s' /\
     Z.of_nat (length (complete ms s)) <= Zlen (n_emitted s) + 3 * rounds ms (n_send (after_loss s)) /\
-    rounds ms (n_send (after_loss s)) <= Zlen (n_written s) - s_start (n_send s) + 1.
+    rounds ms (n_send (after_loss s)) <= Zlen (n_written s) - s_start (n_send s) + 1 /\
+    rounds ms (n_send (after_loss s)) <=
+      Zlen (s_pending (n_send (after_loss s))) + psize (s_pending (n_send (after_loss s))) / ms + 1.
 Proof. exact fair_schedule_completes. Qed.
 Print Assumptions fair_schedule_completes_thm.
 
@@ -145,6 +148,13 @@ Theorem reset_final_size_sound_thm : forall s fs, xreach s -> In fs (n_resets s)
   (forall f, r_final (n_recv s) = Some f -> f = fs).
 Proof. exact reset_final_size_sound. Qed.
 Print Assumptions reset_final_size_sound_thm.
+
+(* with resets the sender reports is_finished only after a RESET_STREAM frame was acknowledged or the receiver has
+   reported every written byte and the end marker *)
+Theorem finished_implies_resets_thm : forall s, xreach s -> s_finished (n_send s) = true ->
+  (n_racked s = true /\ n_resets s <> []) \/ (n_dbytes s = n_written s /\ n_ends s = 1 /\ eof s).
+Proof. exact x_finished_implies. Qed.
+Print Assumptions finished_implies_resets_thm.
 
 (* after the receiver accepted a reset nothing more is reported, whatever step follows *)
 Theorem nothing_after_reset_thm : forall s op o s', xreach s -> n_rreset s = true -> net_step s op = Some (o, s') ->
